@@ -115,6 +115,13 @@ int main(int argc, char** argv) {
    else if (k == "YF1") r = YF1(a[0],a[1],a[2]); else if (k == "YFW") r = YFW(a[0],a[1]); else if (k == "YFZ") r = YFZ(a[0],a[1]);
    else if (k == "YF2") r = YF2(a[0],a[1]); else if (k == "YF3") r = YF3(a[0],a[1],a[2]); else if (k == "fb") r = fb(a[0],a[1],a[2],a[3]);
    else if (k == "Fm0") r = Fm0(a[0],a[1],a[2],a[3]); else if (k == "Fmp") r = Fmp(a[0],a[1],a[2],a[3]);
+   else if (k == "nonYuk" || k == "Yuk" || k == "EWadd") {
+      // argv: mw mz alpha mm mhSM mh mH mA mHp tb zetal cba lambda5 lambda67
+      double v[14]; for (int i = 0; i < 14; i++) v[i] = std::strtod(argv[2+i], nullptr);
+      THDM_B_parameters p; p.mw = v[0]; p.mz = v[1]; p.alpha_em = v[2]; p.mm = v[3]; p.mhSM = v[4]; p.mh << v[5], v[6]; p.mA = v[7]; p.mHp = v[8]; p.tb = v[9];
+      p.zetal = v[10]; p.cos_beta_minus_alpha = v[11]; p.lambda5 = v[12]; p.lambda67 = v[13];
+      r = k == "Yuk" ? amu2L_B_Yuk(p) : k == "EWadd" ? amu2L_B_EWadd(p) : amu2L_B_nonYuk(p);
+   }
    else return 2;
    std::printf("%.17g\n", r);
    return 0;
@@ -337,3 +344,158 @@ def _(ctx):
                     bad.append('%s: |a(M=%.0f GeV)| = %.4e is not <= 0.45 |a(M=%.0f GeV)| = %.4e (ratio %.3g)' % (nm, rows[k + 1][0], abs(a1), rows[k][0], 0.45 * abs(a0), abs(a1 / a0) if a0 else float('inf')))
             ctx.record(tag, FAILED if bad else PROVED, 'bounded', 0, ('BOUNDED: ' + '; '.join(bad)) if bad else 'BOUNDED: all three components fall by more than 0.45 from M = %.0f to %.0f GeV (cos(beta-alpha) = %.1e)' % (rows[k][0], rows[k + 1][0], rows[k + 1][4]),
                        solver='native execution of the real library', kind='bounded')
+
+# ---------------------------------------------------------------------------------------------------
+# assembly: amu2L_B_Yuk == amu2LBYuk and amu2L_B_nonYuk == amu2LBNonYuk of the reference file, with the kernels as callees by contract (uninterpreted on both sides:
+# their own equality with the reference is C10.ref.<kernel>)
+# ---------------------------------------------------------------------------------------------------
+def _params(ctx, it):
+    from gm2v.symobj import symbolic_fields
+    p = it.new_object('THDM_B_parameters', symbolic_fields(None, prefix='p.'))
+    f = p.f
+    pre = [f['mw'] > 0, f['mz'] > f['mw'], f['alpha_em'] > 0, f['mm'] > 0, f['tb'] > 0, f['mhSM'] > 0, f['mA'] > 0, f['mHp'] > 0, f['mh'].get(0) > 0, f['mh'].get(1) > 0]
+    return p, pre
+
+def _kernel_uf(it, name, extra):
+    """reference-side counterpart of uf_stub(name): the kernel applied to the reference arguments plus the extra C++ arguments (al, cw2)"""
+    return lambda *a: it.uf('fn_' + name, *[z3.simplify(z3real(x)) for x in list(a) + list(extra)])
+
+@obligation('C10.ref.amu2L_B_Yuk', fns=[(B2, 'amu2L_B_Yuk')], replay=lambda m, wd: make_assembly_replay('Yuk')(m, wd))
+def _(ctx):
+    """ensures for ALL parameters: amu2L_B_Yuk(pars) == amu2LBYuk of math/THDMTwoLoopB.m (Eq. (52), (91)-(98) of arXiv:1607.06292) with x_S = m_S^2/MZ^2, CW2 = MW^2/MZ^2,
+    aeps = cos(beta-alpha), Lambda567 := Lambda5 + Lambda67/(tan(beta) - 1/tan(beta)); the kernels Fm0, Fmp, YF2, YF3 are callees by contract (C10.ref.<kernel>), b is executed"""
+    stubs = {n: uf_stub(n) for n in ('Fm0', 'Fmp', 'YF1', 'YF2', 'YF3', 'T9', 'T10')}
+    it = Interp(ctx.w, mode='sym', stubs=stubs, div_sides=False)
+    p, pre = _params(ctx, it)
+    it.assumptions = pre
+    ps = it.run_paths(lambda: it.call('amu2L_B_Yuk', [p], file=B2))
+    ctx.merge_rules(it)
+    f = p.f
+    mz2 = f['mz'] * f['mz']
+    cw2 = z3.simplify(f['mw'] * f['mw'] / mz2)
+    al = f['alpha_em']
+    sc = f['tb'] - 1 / f['tb']
+    syms = {'CW2': cw2, 'Pi': z3.Real('c_PI'), 'AL': al, 'MM': f['mm'], 'MZ': f['mz'], 'TB': f['tb'], 'ZetaL': f['zetal'], 'Lambda5': f['lambda5'],
+            'Lambda567': f['lambda5'] + f['lambda67'] / sc, 'aeps': f['cos_beta_minus_alpha'],
+            'xhSM': z3.simplify(f['mhSM'] * f['mhSM'] / mz2), 'xH': z3.simplify(f['mh'].get(1) * f['mh'].get(1) / mz2), 'xHp': z3.simplify(f['mHp'] * f['mHp'] / mz2)}
+    defs = mma.load(os.path.join(ctx.w.repo, MFILE))
+    fns = {'Fm0': _kernel_uf(it, 'Fm0', (al, cw2)), 'Fmp': _kernel_uf(it, 'Fmp', (al, cw2)), 'YF2': _kernel_uf(it, 'YF2', (cw2,)), 'YF3': _kernel_uf(it, 'YF3', (cw2,))}
+    ev = mma.Evaluator(defs, syms, fns, const=lambda q: z3.RealVal(str(q)))
+    rules = ev.rules_of(('sym', 'expandAmu'))
+    for k in ('CW2', 'xA', 'xHp', 'xhSM', 'xH'):
+        rules.pop(k, None)
+    try:
+        ref = ev.ev(('sym', 'amu2LBYuk'), rules)
+    except mma.MmaError as e:
+        ctx.record('', ERROR, 'B', 0, 'reference formula amu2LBYuk: %s' % e)
+        return
+    n = 0
+    for k, (s_, r, e) in enumerate(ps):
+        if e is not None or r is None:
+            ctx.record('path%d' % k, FAILED, 'B', 0, 'no value: %s' % (e,))
+            continue
+        n += 1
+        ctx.prove_ring('path%d' % k, [(z3real(r), ref)])
+    ctx.record('paths', PROVED if n else ERROR, 'B', 0, '%d path(s) compared with amu2LBYuk of %s' % (n, MFILE))
+
+@obligation('C10.ref.amu2L_B_nonYuk', fns=[(B2, 'amu2L_B_nonYuk'), (B2, 'TX'), (B2, 'T4'), (B2, 'dxlog')], replay=lambda m, wd: make_assembly_replay('nonYuk')(m, wd))
+def _(ctx):
+    """ensures for ALL parameters (on the path where no near-equality series of dxlog is taken): amu2L_B_nonYuk(pars) == amu2LBNonYuk of math/THDMTwoLoopB.m (Eq. (71)); the code's
+    TX, T4 and dxlog are executed and must reproduce the reference combination of T2+, T2-, T4 (Eqs. (74), (75)); T0, T1, T5-T8 are callees by contract"""
+    stubs = {n: uf_stub(n) for n in ('T0', 'T1', 'T5', 'T6', 'T7', 'T8')}
+    stubs['is_equal_rel'] = lambda it_, a, t: False      # the generic path: no pair of mass ratios is within the near-equality window of dxlog (its series: C10.callee.dxlog_series)
+    it = Interp(ctx.w, mode='sym', stubs=stubs, div_sides=False, feasibility=False)
+    p, pre = _params(ctx, it)
+    it.assumptions = pre
+    ps = it.run_paths(lambda: it.call('amu2L_B_nonYuk', [p], file=B2), max_paths=64)
+    ctx.merge_rules(it)
+    f = p.f
+    mz2 = f['mz'] * f['mz']
+    cw2 = z3.simplify(f['mw'] * f['mw'] / mz2)
+    syms = {'CW2': cw2, 'Pi': z3.Real('c_PI'), 'AL': f['alpha_em'], 'MM': f['mm'], 'MZ': f['mz'],
+            'xA': z3.simplify(f['mA'] * f['mA'] / mz2), 'xH': z3.simplify(f['mh'].get(1) * f['mh'].get(1) / mz2), 'xHp': z3.simplify(f['mHp'] * f['mHp'] / mz2)}
+    defs = mma.load(os.path.join(ctx.w.repo, MFILE))
+    ln = lambda x: it.uf('ln', z3.simplify(x))
+    fns = {n: _kernel_uf(it, n, (cw2,)) for n in ('T0', 'T1', 'T5', 'T6', 'T7', 'T8')}
+    fns['Log'] = ln
+    ev = mma.Evaluator(defs, syms, fns, const=lambda q: z3.RealVal(str(q)))
+    rules = ev.rules_of(('sym', 'expandAmu'))
+    for k in ('CW2', 'xA', 'xHp', 'xhSM', 'xH'):
+        rules.pop(k, None)
+    try:
+        ref = ev.ev(('sym', 'amu2LBNonYuk'), rules)
+    except mma.MmaError as e:
+        ctx.record('', ERROR, 'B', 0, 'reference formula amu2LBNonYuk: %s' % e)
+        return
+    lnf = it.uf_cache.get(('ln', 1))
+    ref = _expand_logs(ref, lnf) if lnf is not None else ref
+    # the generic path: the one whose result contains no series of dxlog, i.e. the path on which every near-equality test is false
+    generic = [(s_, r) for s_, r, e in ps if e is None and r is not None]
+    if len(generic) != 1:
+        ctx.record('paths', ERROR, 'B', 0, '%d generic paths among %d' % (len(generic), len(ps)))
+        return
+    code = _expand_logs(z3real(generic[0][1]), lnf) if lnf is not None else z3real(generic[0][1])
+    ctx.prove_ring('generic', [(code, ref)])
+    ctx.record('paths', PROVED, 'B', 0, '%d paths, generic path compared with amu2LBNonYuk of %s' % (len(ps), MFILE))
+
+def _is_near_test_true(c):
+    """a path-condition literal that is a (non-negated) comparison '|a - b| < eps * ...' -- the near-equality branch of dxlog taken"""
+    return not z3.is_not(c) and c.decl().kind() in (z3.Z3_OP_LT, z3.Z3_OP_LE) and 'If(' in str(c)
+
+
+ASSEMBLY_POINTS = [
+    # mw, mz, alpha, mm, mhSM, mh, mH, mA, mHp, tb, zetal, cba, lambda5, lambda67
+    (80.379, 91.1876, 1 / 137.036, 0.1056583745, 125.09, 125.09, 400.0, 420.0, 440.0, 3.0, -3.0, 0.1, 0.5, 0.2),
+    (80.379, 91.1876, 1 / 137.036, 0.1056583745, 125.09, 125.09, 300.0, 250.0, 500.0, 0.5, 0.5, -0.05, -1.0, 0.3),
+    (80.379, 91.1876, 1 / 137.036, 0.1056583745, 125.09, 110.0, 180.0, 600.0, 200.0, 20.0, -20.0, 0.02, 2.0, -0.4),
+    (80.385, 91.1876, 1 / 128.0, 0.1056583745, 125.09, 125.09, 800.0, 810.0, 790.0, 10.0, 0.1, 0.3, 0.1, 0.0),
+]
+
+def make_assembly_replay(which):
+    def rep(model, wd):
+        from gm2v import native
+        from gm2v.world import REPO
+        import subprocess
+        import mpmath as mp
+        from contracts.c02 import mp_spec
+        mp.mp.dps = 40
+        exe = native.build_against_library(wd, REPLAY.replace('@REPO@', REPO), name='kernels_B', exclude=('src_THDM_gm2_2loop_B.cpp.o',))
+        defs = mma.load(os.path.join(REPO, MFILE))
+        bad, worst = [], 0.0
+        for pt in ASSEMBLY_POINTS:
+            mw, mz, al, mm, mhSM, mh, mH, mA, mHp, tb, zl, cba, l5, l67 = pt
+            r = subprocess.run([exe, which] + [repr(v) for v in pt], capture_output=True, text=True, timeout=60)
+            got = float(r.stdout.split()[0])
+            M = mp.mpf
+            syms = {'CW2': M(mw)**2 / M(mz)**2, 'Pi': mp.pi, 'AL': M(al), 'MM': M(mm), 'MZ': M(mz), 'TB': M(tb), 'ZetaL': M(zl), 'Lambda5': M(l5),
+                    'Lambda567': M(l5) + M(l67) / (M(tb) - 1 / M(tb)), 'aeps': M(cba), 'xhSM': (M(mhSM) / M(mz))**2, 'xH': (M(mH) / M(mz))**2,
+                    'xA': (M(mA) / M(mz))**2, 'xHp': (M(mHp) / M(mz))**2}
+            fns = {'Log': lambda x: mp.log(x), 'PolyLog': lambda n, x: mp.polylog(int(n), x), 'Sqrt': lambda x: mp.sqrt(x),
+                   'Phi': lambda a, b, c: mp_spec('Phi', [a, b, c])}
+            ev = mma.Evaluator(defs, syms, fns, const=lambda q: mp.mpf(q.numerator) / q.denominator)
+            if which == 'EWadd':
+                ev.sym.update({'CW': M(mw) / M(mz), 'MH': M(mh)})
+                ev.sym.pop('CW2')
+                ref = mp.re(ev.ev(('sym', 'amu2LBEW'), {}))
+            else:
+                rules = ev.rules_of(('sym', 'expandAmu'))
+                ref = mp.re(ev.ev(('sym', 'amu2LBYuk' if which == 'Yuk' else 'amu2LBNonYuk'), rules))
+            rel = abs(got - ref) / abs(ref)
+            worst = max(worst, float(rel))
+            if not rel <= 1e-6:
+                bad.append('amu2L_B_%s%r: real code %.10e, reference formula %s (rel %.3g)' % (which, pt, got, mp.nstr(ref, 11), float(rel)))
+        return bool(bad), 'amu2L_B_%s against %s at 40 digits on %d parameter points: %s' % (which, MFILE, len(ASSEMBLY_POINTS), '; '.join(bad[:3]) if bad else 'all within 1e-6 (worst %.2g)' % worst)
+    return rep
+
+
+@obligation('C10.ref.amu2L_B_EWadd.points', fns=[(B2, 'amu2L_B_EWadd')], backend='bounded', replay=lambda m, wd: make_assembly_replay('EWadd')(m, wd))
+def _(ctx):
+    """BOUNDED stand-in (4 parameter points, REAL code in native doubles against a 40-digit evaluation of amu2LBEW of math/THDMTwoLoopB.m, Eq. (49)): the code uses a different but
+    equivalent basis of special functions (f_PS for the Phi functions, dilogarithms of real arguments for the complex l_i, li_i), which no ring identity relates"""
+    import tempfile, shutil
+    wd = tempfile.mkdtemp(prefix='gm2v_ew_')
+    try:
+        bad, det = make_assembly_replay('EWadd')(None, wd)
+    finally:
+        shutil.rmtree(wd, ignore_errors=True)
+    ctx.record('', FAILED if bad else PROVED, 'bounded', 0, 'BOUNDED: ' + det, solver='native execution vs mpmath', kind='bounded')
